@@ -164,6 +164,9 @@ func srcFeatures(m *d2ast.Map) []string {
 				}
 			}
 			if nb.MapKey != nil {
+				if nb.MapKey.HasTripleGlob() {
+					set["glob:triple"] = true
+				}
 				walkPath(nb.MapKey.Key, false)
 				for _, e := range nb.MapKey.Edges {
 					walkPath(e.Src, true)
@@ -285,6 +288,9 @@ func run(c *hl.Ctx) error {
 			prof = "kwcase"
 		}
 		p := g.Program(prof)
+		if i%8 == 7 {
+			p = g.EvalCore() // evaluator sub-fragment: ties the abstract evaluator (FmtSem) to Compile
+		}
 		hasForced := false
 		for _, f := range p.Feat {
 			c.Count("gen:" + f)
